@@ -105,3 +105,24 @@ func Harness_C05_denormalize() {
 	vr.Assert("every output level is >= minLevel and on the levelMod grid (or the leaf level)", ok)
 	vr.Reach("end")
 }
+
+// FastCovering (bounding cells + normalization) on a tiny cap whose bounding cells are far
+// deeper than MaxLevel: level limits and the LevelMod grid must still hold.
+func Harness_C05_fast_covering_levels() {
+	vr.Domain("FPX")
+	vr.Unwind(4000)
+	vr.NoMerge()
+	rc := &RegionCoverer{MinLevel: vr.Int("minLevel"), MaxLevel: vr.Int("maxLevel"), LevelMod: vr.Int("levelMod"), MaxCells: vr.Int("maxCells")}
+	top := 6
+	if vr.Thorough() {
+		top = 10
+	}
+	vr.Assume(vr.And(vr.And(rc.MinLevel >= 0, rc.MinLevel <= rc.MaxLevel), rc.MaxLevel <= top))
+	vr.Assume(vr.And(rc.LevelMod >= 1, rc.LevelMod <= 3))
+	vr.Assume(vr.And(rc.MaxCells >= 1, rc.MaxCells <= 8))
+	cap := CapFromCenterAngle(PointFromCoords(0.8, 0.5, 0.3), s1.Angle(1e-6))
+	cov := rc.FastCovering(cap)
+	vr.Assert("FastCovering respects MinLevel/MaxLevel/LevelMod", vrLevelsOK(rc, cov))
+	vr.Assert("FastCovering covers the cap centre", cov.ContainsPoint(cap.Center()))
+	vr.Reach("end")
+}
